@@ -434,7 +434,8 @@ void check_history(History const& h, Problem const& prob, OracleOpts const& opts
                 }
                 double scale = std::fabs(c.pos[0]) + std::fabs(c.pos[1]) + std::fabs(c.pos[2])
                                + std::fabs(b.pos[0]) + std::fabs(b.pos[1]) + std::fabs(b.pos[2]);
-                if (disp > c.step_length * (1 + 16 * EPS) + 16 * EPS * scale + opts.field_disp_tol)
+                if (disp > c.step_length * (1 + 16 * EPS) + 16 * EPS * scale + opts.field_disp_tol
+                               + 4 * opts.field_rel_tol * c.step_length)
                 {
                     std::string klass = failed_alloc ? "displacement-exceeds-step-after-failed-allocation"
                                                      : "displacement-exceeds-step";
